@@ -97,8 +97,10 @@ Definition ok_client (es : list event) (cs : list cb) : bool :=
   no_dead cs && ok_converge ks es cs && ok_order ks es cs && ok_insync ks es cs.
 
 (* ======================================== correspondence case =========================================== *)
-(* observed crumb (KVs.Ascend, Deltas, SyncStatus) *)
-Record ocrumb := mkOC { oc_kvs : list upd; oc_deltas : list upd; oc_status : status }.
+(* observed crumb: SyncStatus of every crumb (so also the number of crumbs); to keep the case files small the driver
+   dumps (KVs.Ascend, Deltas) only for every fourth crumb and the newest one - the trees of the crumbs that clients
+   joined at and the deltas of the crumbs they followed are observed through the clients' callbacks anyway *)
+Record ocrumb := mkOC { oc_dump : option (list upd * list upd); oc_status : status }.
 (* one connection: crumb it joined at (SequenceNumber of the snapshot's crumb), snapshot chunk size (MaxMessageSize,
    or 1000 for the pre-built binary snapshot), number of pushes that had been published when it had read everything,
    how many crumbs each round of the delta loop followed, and the callbacks it delivered *)
@@ -107,8 +109,10 @@ Record case := mkCase { c_maxbatch : N; c_pushes : list (list event); c_crumbs :
                         c_clients : list oclient }.
 
 Definition ocrumb_eqb (a : crumb) (b : ocrumb) : bool :=
-  list_eqb upd_eqb (c_kvs a) (oc_kvs b) && list_eqb upd_eqb (c_deltas a) (oc_deltas b)
-  && status_eqb (c_status a) (oc_status b).
+  match oc_dump b with
+  | None => true
+  | Some (kvs, ds) => list_eqb upd_eqb (c_kvs a) kvs && list_eqb upd_eqb (c_deltas a) ds
+  end && status_eqb (c_status a) (oc_status b).
 Fixpoint list_eqb2 {A B} (eqb : A -> B -> bool) (a : list A) (b : list B) : bool :=
   match a, b with
   | [], [] => true
